@@ -12,6 +12,7 @@ const ruleText = "A case is a history of syncs of one publisher on one fresh Sub
 	"single: every fault kind (500, 404, 403, closed connection, TCP reset / stream reset, corrupt body, truncated body, stalled header, stalled body, context cancellation) at EVERY request index of the sync, for heads 1..4, explicit and announce-triggered, segment depth off/1/2, also with a stop position inside the chain and a pre-stored block; followed by a fault-free retry of the same head (and for a subset a third sync in the other mode). " +
 	"pair-same / pair-seq: two faults in one sync, or in two consecutive syncs, then the retry (thorough: all pairs for heads <= 3, pairs that include a stalled response 1 in 12; quick: a seeded sample). hook: FailSync at every hook call index. disc: the discovery request fails. addrchange: the address list changes between syncs (syncer re-creation, sorted-address quirk). random: seeded histories of 3..6 syncs mixing everything. " +
 	"queued: a second, newer head is announced while the stalled sync of the first runs (it is the pending message when that sync fails), the script runs on into the queued sync, then both heads are announced again on a healthy publisher. " +
+	"cancel: the caller's context cancelled at every position of the walk of an explicit sync: before the call, inside request k (single family), between the answer to request k and the next request, from the block hook at every call j with segment depth off/1/2/3, also with a pre-stored block and a stop inside the chain. trusted: TrustedStorage link system with bodies corrupted so that they still decode (and other body faults) at every request. " +
 	"opts: Subscriber options around failures: MaxAsyncConcurrency(1|2) with as many and more failed announce-triggered syncs (request faults, hook failures) as there are slots, then healthy announcements (each must be processed) and an explicit sync; no BlockHook; StrictAdsSelector(false); announce.WithFilterIPs (the sync client cannot be made). " +
 	"both: fault-free explicit syncs (heads 1..4, every latest-sync position, every pre-stored subset, segment off/1/2/3) whose observed request log, hook order, store and latest-sync are checked against C04's model AND C01's sync_ad_chain in one Coq checker (both_case_ok). " +
 	"non-trivial = some sync of the history failed AND a later successful sync had to send requests"
@@ -38,7 +39,7 @@ var worldCfgs = []wcfg{
 }
 
 func faultKinds(kind, mode string) []fd.Fault {
-	fs := []fd.Fault{{K: "status", N: 500}, {K: "notfound"}, {K: "forbidden"}, {K: "transport"}, {K: "corrupt"}, {K: "truncated"}, {K: "stallhdr"}, {K: "stallbody"}}
+	fs := []fd.Fault{{K: "status", N: 500}, {K: "notfound"}, {K: "forbidden"}, {K: "transport"}, {K: "corrupt"}, {K: "corruptp"}, {K: "truncated"}, {K: "stallhdr"}, {K: "stallbody"}}
 	if kind == "stream" {
 		fs = append(fs, fd.Fault{K: "reset"})
 	} else {
@@ -131,6 +132,9 @@ func generate(c *vlib.Ctx) []*Hist {
 					for _, mode := range modes {
 						n := nreq(wc.kind, mode, head, cfg)
 						for _, f := range faultKinds(wc.kind, mode) {
+							if !thorough && f.K == "corruptp" && wc.name != "one" {
+								continue // quick: the parseable corruption on the one-address worlds (and the trusted family)
+							}
 							if !thorough && (f.K == "stallhdr" || f.K == "stallbody") && (head == 4 || (head == 3 && (seg != 0 || cfg.Latest0 != 0 || len(cfg.Pre) != 0))) {
 								continue // stalls cost the client timeout each; thorough does them all
 							}
@@ -403,6 +407,76 @@ func generate(c *vlib.Ctx) []*Hist {
 		}
 	}
 
+	// ---- cancellation of the caller's context at every position of the walk (explicit syncs,
+	// HTTP transports): before the sync is called; between the answer to block request k and
+	// the next request (okcancel: when the block is committed); from the block hook at call j
+	// (after the segment of block j, before the next one) - segment depth off/1/2/3.  Inside
+	// request k: the "cancel" fault of the single family.
+	for _, wc := range worldCfgs {
+		if !(wc.name == "one" && wc.kind != "stream" || wc.kind == "plain" && (wc.name == "two" || wc.name == "alive+dead")) {
+			continue
+		}
+		for head := 1; head <= 4; head++ {
+			for _, seg := range []int{0, 1, 2, 3} {
+				cfgs := []fd.Config{{Seg: seg}}
+				if head >= 3 && wc.kind == "plain" && wc.name == "one" {
+					cfgs = append(cfgs, fd.Config{Seg: seg, Pre: []int{head - 1}}, fd.Config{Seg: seg, Latest0: 1})
+				}
+				for _, cfg := range cfgs {
+					mk := func(o fd.Op, class string) {
+						ops := []fd.Op{o, mkop("explicit", wc.addrs, head, nil)}
+						if (head+seg)%2 == 0 {
+							ops = append(ops, mkop("announce", wc.addrs, head, nil))
+						}
+						add(&Hist{Fam: "cancel", Kind: wc.kind, Alive: wc.alive, Cfg: cfg, Retry: 1, Class: class, Ops: ops})
+					}
+					if seg <= 1 && len(cfg.Pre) == 0 && cfg.Latest0 == 0 {
+						o := mkop("explicit", wc.addrs, head, nil)
+						o.PreCancel = true
+						mk(o, "precancel")
+					}
+					for j := 0; j < head; j++ {
+						o := mkop("explicit", wc.addrs, head, nil)
+						o.HookCancelAt = j + 1
+						mk(o, "hookcancel")
+					}
+					if wc.kind != "legacy" {
+						n := nreq(wc.kind, "explicit", head, cfg)
+						for at := 1; at < n; at++ {
+							mk(mkop("explicit", wc.addrs, head, script(at, fd.Fault{K: "okcancel"})), "okcancel")
+						}
+					}
+				}
+			}
+		}
+	}
+
+	// ---- a subscriber whose link system trusts its storage (TrustedStorage = true: nothing is
+	// hashed on load), and bodies corrupted so that they still decode
+	for _, wc := range worldCfgs {
+		if wc.name != "one" {
+			continue
+		}
+		for head := 1; head <= 3; head++ {
+			for _, seg := range []int{0, 1} {
+				for _, mode := range modes {
+					cfg := fd.Config{Seg: seg, Trusted: true}
+					n := nreq(wc.kind, mode, head, cfg)
+					tf := []fd.Fault{{K: "corruptp"}, {K: "corrupt"}, {K: "truncated"}, {K: "status", N: 500}}
+					if !thorough {
+						tf = tf[:2]
+					}
+					for _, f := range tf {
+						for at := 0; at < n; at++ {
+							add(&Hist{Fam: "trusted", Kind: wc.kind, Alive: wc.alive, Cfg: cfg, Retry: 1, Class: "trusted+" + f.String(),
+								Ops: []fd.Op{mkop(mode, wc.addrs, head, script(at, f)), mkop(mode, wc.addrs, head, nil), mkop(other(mode), wc.addrs, head, nil)}})
+						}
+					}
+				}
+			}
+		}
+	}
+
 	// ---- pairs
 	rp := c.Rng.Fork("pairs")
 	pairHeads := 3
@@ -410,7 +484,12 @@ func generate(c *vlib.Ctx) []*Hist {
 		for _, seg := range []int{0, 1} {
 			for _, wc := range worldCfgs {
 				for _, mode := range modes {
-					fks := faultKinds(wc.kind, mode)
+					var fks []fd.Fault
+					for _, f := range faultKinds(wc.kind, mode) {
+						if f.K != "corruptp" {
+							fks = append(fks, f)
+						}
+					}
 					n := nreq(wc.kind, mode, head, fd.Config{})
 					for _, f := range fks {
 						for _, g := range fks {
